@@ -616,11 +616,16 @@ impl Printf {
         })
     }
 
-    fn print(&self, file_info: &WalkEntry, starting_point: Option<&Path>, mut out: impl Write) {
+    fn print(
+        &self,
+        file_info: &WalkEntry,
+        starting_point: Option<&Path>,
+        mut out: impl Write,
+    ) -> std::io::Result<()> {
         for component in &self.format.components {
             match component {
-                FormatComponent::Literal(literal) => write!(out, "{literal}").unwrap(),
-                FormatComponent::Flush => out.flush().unwrap(),
+                FormatComponent::Literal(literal) => write!(out, "{literal}")?,
+                FormatComponent::Flush => out.flush()?,
                 FormatComponent::Directive {
                     directive,
                     width,
@@ -631,17 +636,16 @@ impl Printf {
                         // widths that do not fit in 16 bits.
                         let fill =
                             width.map_or(0, |width| width.saturating_sub(content.chars().count()));
-                        let pad = |out: &mut dyn Write| {
-                            for _ in 0..fill {
-                                out.write_all(b" ").unwrap();
-                            }
-                        };
                         if *justify == Justify::Right {
-                            pad(&mut out);
+                            for _ in 0..fill {
+                                out.write_all(b" ")?;
+                            }
                         }
-                        write!(out, "{content}").unwrap();
+                        write!(out, "{content}")?;
                         if *justify == Justify::Left {
-                            pad(&mut out);
+                            for _ in 0..fill {
+                                out.write_all(b" ")?;
+                            }
                         }
                     }
                     Err(e) => {
@@ -655,19 +659,29 @@ impl Printf {
                 },
             }
         }
+        Ok(())
     }
 }
 
 impl Matcher for Printf {
     fn matches(&self, file_info: &WalkEntry, matcher_io: &mut MatcherIO) -> bool {
-        if let Some(file) = &self.output_file {
-            self.print(file_info, matcher_io.starting_point(), file);
+        let result = if let Some(file) = &self.output_file {
+            self.print(file_info, matcher_io.starting_point(), file)
         } else {
             self.print(
                 file_info,
                 matcher_io.starting_point(),
                 &mut *matcher_io.deps.get_output().borrow_mut(),
+            )
+        };
+        // A failed write (disk full, closed pipe) is an error, not a reason to panic.
+        if let Err(e) = result {
+            eprintln!(
+                "Error writing '{}': {}",
+                file_info.path().to_string_lossy(),
+                e
             );
+            matcher_io.set_exit_code(1);
         }
 
         true
